@@ -268,8 +268,8 @@ def segmentLoop (version : Int) : (fuel : Nat) → Buffer → Array Segment → 
       else if mode = modeTerminated then pure acc.toList
       else segmentLoop version fuel buf acc
 
-/-- how many syndromes the decoder asks for: the pinned source passes the constant 2 -/
-def RS_SYNDROMES (_parity : Nat) : Int := 2
+/-- how many syndromes the decoder asks for: the block's parity length -/
+def RS_SYNDROMES (parity : Nat) : Int := parity
 
 /-- Go: `DecodeBitmap`; also returns the caller's bitmap as it is after the call -/
 def decodeBitmapFull (img : Image) : Out (QRCode × Image) := do
